@@ -131,10 +131,10 @@ func configs(thorough bool) []Config {
 		where string
 		body  bool
 	}
-	universe := []string{"application/json", "text/plain", "text/*", "*/*", "application/*", "application/json; charset=utf-8"}
+	universe := consumesUniverse[:6]
 	maxLen := 2
 	if thorough {
-		universe = append(universe, "text/plain;charset=utf-8")
+		universe = consumesUniverse
 		maxLen = 3
 	}
 	var out []Config
@@ -260,6 +260,12 @@ func main() {
 
 	thorough := r.Thorough()
 	headers := append(validHeaders(thorough), specialHeaders()...)
+	headers = append(headers, neighbourHeaders()...)
+	var nb []string
+	for _, n := range neighbours() {
+		nb = append(nb, fmt.Sprintf("%s (%s of %s; consumer under registration all: %v)", n.mt, n.how, n.of, n.registered))
+	}
+	r.Set("header_neighbours", nb)
 	modes := []string{"none", "cl0", "cl2", "chunked1", "chunked0", "unknownlen"}
 	if thorough {
 		modes = append(modes, "chunked2", "cl5000")
